@@ -18,7 +18,7 @@ RULE = ('history = pool of generated expression ASTs (depth <= 5: traced functio
         '1024) predicting values, identity of cached results, invocation counts, cache_info() and LazyObjectMissingError; second '
         'scenario: LruCache state machine vs the same model for maxsize 1..5; non-trivial = depth >= 3 with a lazy argument, or a '
         'history that exceeds a bound and re-touches an old key; distinct = distinct canonical case JSON'
-        '; also: keyword order, same-object cached calls with array arguments, bytes arguments, floods of 255..300 held objects, arguments that raise StopIteration')
+        '; also: keyword order, same-object cached calls with array arguments, bytes arguments, floods of 255..300 held objects, arguments that raise StopIteration, single-underscore attribute names')
 ASSUMPTIONS = [
     'all callables live in vlib/targets.py (importable, so cloudpickle pickles them by reference) and count their invocations',
     'expression equality (cache key) is the library\'s: same callable, same arguments and keyword arguments, recursively - the '
@@ -338,6 +338,7 @@ def _int(depth):
       st.builds(lambda o, i: {'k': 'item', 'obj': o, 'key': i}, lst, st.integers(0, 1)),
       st.builds(lambda o: {'k': 'attr', 'obj': o, 'name': 'hits'}, inst),
       st.builds(lambda o: {'k': 'attr', 'obj': o, 'name': 'base'}, inst),
+      st.builds(lambda o: {'k': 'attr', 'obj': o, 'name': '_base2'}, inst),
       st.builds(lambda o, by, c: {'k': 'mcall', 'obj': o, 'name': 'bump', 'args': [{'c': by}], 'cache': c}, inst, st.integers(1, 3), st.booleans()),
       st.builds(lambda o, a: {'k': 'ocall', 'obj': o, 'args': [a]}, inst, sub),
       st.builds(lambda o: {'k': 'item', 'obj': o, 'key': 'k'}, inst),
